@@ -180,7 +180,7 @@ pub open spec fn walk(v: VId, s: Seq<&ScalarCow>) -> Option<VId>
     ensures index.chars_view() != "size"@ ==> o is None,
             index.chars_view() == "size"@ ==> (o matches Some(c) && c.vid() == int_vid(obj.entries()))
 //@ prologue
-    broadcast use axiom_structure, axiom_entries, axiom_int_value, group_kstr; proof { reveal_strlit("first"); reveal_strlit("last"); reveal_strlit("size"); }
+    broadcast use axiom_structure, axiom_entries, axiom_int_value, group_kstr; proof { reveal_strlit("first"); reveal_strlit("last"); reveal_strlit("size"); assert("first"@.len() == 5 && "last"@.len() == 4 && "size"@.len() == 4 && "last"@[0] != "size"@[0]); assert("first"@ != "last"@ && "first"@ != "size"@ && "last"@ != "size"@); }
 //@ end
 
 //@ item crates/core/src/model/find.rs :: fn try_find_borrowed
